@@ -10,14 +10,47 @@ theorem certified_tokens (root : Node) (d : Twin.Doc) (h : tokensCertified root 
   simp only [tokensCertified, Bool.and_eq_true, beq_iff_eq] at h
   intro u m xs hl
   rw [← h.2]
-  exact (d.emits h.1 u).1 m xs hl
+  exact d.emits h.1 u .tok m xs hl
 
 theorem certified_comments (root : Node) (d : Twin.Doc) (h : commentsCertified root d = true) :
     ∀ u m xs, Lay m (d.fam u) xs → cmtText xs = (specCmts (prepare root)).toList := by
   simp only [commentsCertified, Bool.and_eq_true, beq_iff_eq] at h
   intro u m xs hl
   rw [← h.2]
-  exact (d.emits h.1 u).2 m xs hl
+  exact d.emits h.1 u .cmt m xs hl
+
+theorem certified_prose (root : Node) (d : Twin.Doc) (h : proseCertified root d = true) :
+    ∀ u m xs, Lay m (d.fam u) xs → proseText xs = (specProse (prepare root)).toList := by
+  simp only [proseCertified, Bool.and_eq_true, beq_iff_eq] at h
+  intro u m xs hl
+  rw [← h.2]
+  exact d.emits h.1 u .prose m xs hl
+
+theorem certified_literals (root : Node) (d : Twin.Doc) (h : literalsCertified root d = true) :
+    ∀ u m xs, Lay m (d.fam u) xs → litText xs = (specLit (prepare root)).toList := by
+  simp only [literalsCertified, Bool.and_eq_true, beq_iff_eq] at h
+  intro u m xs hl
+  rw [← h.2]
+  exact d.emits h.1 u .lit m xs hl
+
+theorem certified_verbatim (root : Node) (d : Twin.Doc) (h : verbatimCertified root d = true) :
+    ∀ u m xs, Lay m (d.fam u) xs → verbText xs = (specVerb (prepare root)).toList := by
+  simp only [verbatimCertified, Bool.and_eq_true, beq_iff_eq] at h
+  intro u m xs hl
+  rw [← h.2]
+  exact d.emits h.1 u .verb m xs hl
+
+theorem certified_verbatim_best (root : Node) (d : Twin.Doc) (h : verbatimCertified root d = true) (u w : Nat) :
+    verbText (best w 0 [⟨0, .brk, d.fam u⟩]) = (specVerb (prepare root)).toList :=
+  certified_verbatim root d h u .brk _ (pretty_lay w _)
+
+theorem certified_prose_best (root : Node) (d : Twin.Doc) (h : proseCertified root d = true) (u w : Nat) :
+    proseText (best w 0 [⟨0, .brk, d.fam u⟩]) = (specProse (prepare root)).toList :=
+  certified_prose root d h u .brk _ (pretty_lay w _)
+
+theorem certified_literals_best (root : Node) (d : Twin.Doc) (h : literalsCertified root d = true) (u w : Nat) :
+    litText (best w 0 [⟨0, .brk, d.fam u⟩]) = (specLit (prepare root)).toList :=
+  certified_literals root d h u .brk _ (pretty_lay w _)
 
 /-- The same for the renderer at any width and any indent unit. -/
 theorem certified_tokens_best (root : Node) (d : Twin.Doc) (h : tokensCertified root d = true) (u w : Nat) :
